@@ -12,7 +12,7 @@ IR (JSON-able nested lists/tuples):
 
 Leaf kinds      t1 t2 e ei em ef c1 c3 c3s cm doc tt bs mod pg
 Compound kinds  if ifelse for forl try defb defa defself defbuf block ablock
-                calltag nstag include ns inh inhs
+                calltag nstag include ns inh inhs nsbody
 A *position* is an insertion point in any body list (before each item and at the
 end); positions are numbered in printing order.  One plant (a raising leaf or a
 warning-triggering literal) may be inserted at one position.
@@ -25,7 +25,7 @@ from mc import c12_env
 LEAF = ["t1", "t2", "e", "ei", "em", "ef", "c1", "c3", "c3s", "cm", "doc", "tt", "bs", "mod", "pg"]
 COMPOUND = [
     "if", "ifelse", "for", "forl", "try", "defb", "defa", "defself", "defbuf", "block", "ablock",
-    "calltag", "nstag", "include", "ns", "inh", "inhs",
+    "calltag", "nstag", "include", "ns", "inh", "inhs", "nsbody",
 ]
 ALL_KINDS = LEAF + COMPOUND
 
@@ -60,7 +60,7 @@ class Ctx:
 
 
 def allowed(kind, ctx):
-    if kind in ("mod", "ns"):
+    if kind in ("mod", "ns", "nsbody"):
         return ctx.tagdepth == 0
     if kind in ("pg", "inh", "inhs"):
         return ctx.depth0 and ctx.mainfile
@@ -80,7 +80,7 @@ def body_ctx(kind, ctx):
         return Ctx(1, False, False)
     if kind in ("inh", "inhs"):
         return Ctx(0, False, False)
-    return Ctx(ctx.tagdepth + 1, False, ctx.mainfile, ctx.ctl, ctx.calls + (1 if kind in ("calltag", "nstag") else 0))
+    return Ctx(ctx.tagdepth + 1, False, ctx.mainfile, ctx.ctl, ctx.calls + (1 if kind in ("calltag", "nstag", "nsbody") else 0))
 
 
 def gen_seqs(w, ctx, kinds, memo):
@@ -419,6 +419,30 @@ class Lowerer:
             g.w("</%def>" + nl)
             g.body_ops.append(("lit", nl))
             self.endfile(g)
+        elif kind == "nsbody":
+            # a call with content to a def of another file: main -> other file -> main again in one traceback
+            k = self.fresh()
+            uri = "/nb%d.html" % k
+            f.w('<%%namespace name="nb%d" file="nb%d.html"/>' % (k, k) + nl)
+            ops.append(("lit", nl))
+            g = self.newfile(uri)
+            tagline = g.line
+            g.w('<%def name="g()">' + nl)
+            cb_line = g.line
+            g.w("[${caller.body()}]" + nl + "</%def>" + nl)
+            g.defs["g"] = {
+                "tagline": tagline,
+                "ops": [("lit", nl), ("lit", "["), ("callerbody", cb_line), ("lit", "]" + nl)],
+                "toplevel": True,
+            }
+            g.body_ops.append(("lit", nl))
+            self.endfile(g)
+            cl = f.line
+            f.w("<%%nb%d:g>" % k + nl)
+            b = [("lit", nl)]
+            self.emit_list(it[1], f, b, bctx, encl + (kind,))
+            f.w("</%%nb%d:g>" % k + nl)
+            ops += [("nscalltag", cl, uri, "g", b), ("lit", nl)]
         elif kind in ("inh", "inhs"):
             uri = "/base.html"
             f.w('<%inherit file="base.html"/>' + nl)
@@ -671,6 +695,13 @@ class Interp:
             elif o == "nscall":
                 d = self.low.fb[op[2]].defs[op[3]]
                 self.call(op[2], d["ops"], "def", [d["tagline"]])
+            elif o == "nscalltag":
+                d = self.low.fb[op[2]].defs[op[3]]
+                self.callers.append((op[4], fr.uri, loc, op[1]))
+                try:
+                    self.call(op[2], d["ops"], "def", [d["tagline"]])
+                finally:
+                    self.callers.pop()
             else:
                 raise ValueError(o)
 
